@@ -133,6 +133,7 @@ type Enc struct {
 	opaqueUsed  map[string]bool
 	noFacts     bool // proving the facts themselves
 	liteB       bool // background without the byte-string theory (model search for replay only)
+	inFieldAssume bool
 	inFact      bool // evaluating the statement of a fact: opaque functions stay opaque
 	factCache   map[string]string
 	defineOpaque bool // evaluating the definitions themselves (fact proofs): opaque functions are expanded
